@@ -339,8 +339,9 @@ def install():
                           key=lambda x: (x[1], x[0]))
             act = {k: v for k, v in dict(active).items() if v}
             r = orig(self, active)
-            TR.emit("q_release", released=[tid(t) for t in r], queues_before=qb, limits=limits, members=members,
-                    held=held, active=act)
+            qa = {qn: [tid(t) for t in reversed(q.deque)] for qn, q in self.queues.items()}
+            TR.emit("q_release", released=[tid(t) for t in r], queues_before=qb, queues_after=qa, limits=limits,
+                    members=members, held=held, active=act)
             return r
         return release_tasks
     _wrap(IndepQueueManager, "release_tasks", mk_qrel)
